@@ -34,25 +34,48 @@ RULE = ('histories: all sequences of MaxOps operations {Lookup(k), Observe(handl
         'distinct (function, configuration) whose call returned')
 
 
-def _reference_snapshots():
-    """Observe every provider key in a fresh interpreter (independent of this process' history)."""
+def _reference_snapshots(ctx):
+    """Observe every provider key in a *fresh interpreter* (independent of this process' history).
+
+    Two interpreters are used: one looks the keys of each provider up in the order (k1, k2), the other
+    in the order (k2, k1).  The reference for a key is its *first* lookup; if the two interpreters
+    disagree about a key, the lookup already depends on which key was asked for first."""
     code = (
         'import json,sys\n'
         'from harness import lib_purity as L\n'
+        'rev = sys.argv[1] == "1"\n'
         'out={}\n'
         'def ob(p,k):\n'
         '    try: return p.observe(p.lookup(k))\n'
         '    except Exception as e: return "EXC:"+type(e).__name__\n'
         'for p in L.make_providers():\n'
-        '    out[p.name]=[ob(p,k) for k in p.keys]\n'
+        '    ks = list(enumerate(p.keys))\n'
+        '    if rev: ks.reverse()\n'
+        '    r = {}\n'
+        '    for i,k in ks: r[i]=ob(p,k)\n'
+        '    out[p.name]=[r[0], r[1]]\n'
         'print("REF"+json.dumps(out))\n'
     )
-    r = subprocess.run([sys.executable, '-W', 'ignore', '-c', code], capture_output=True, text=True,
-                       env=os.environ, timeout=300)
-    for line in r.stdout.splitlines():
-        if line.startswith('REF'):
-            return json.loads(line[3:])
-    raise MachineryError(f'reference snapshot process failed: {r.stderr[-2000:]}')
+    refs = []
+    for rev in ('0', '1'):
+        r = subprocess.run([sys.executable, '-W', 'ignore', '-c', code, rev], capture_output=True, text=True,
+                           env=os.environ, timeout=300)
+        got = None
+        for line in r.stdout.splitlines():
+            if line.startswith('REF'):
+                got = json.loads(line[3:])
+        if got is None:
+            raise MachineryError(f'reference snapshot process failed: {r.stderr[-2000:]}')
+        refs.append(got)
+    fwd, bwd = refs
+    ref = {}
+    for name in fwd:
+        ref[name] = [fwd[name][0], bwd[name][1]]
+        for i in (0, 1):
+            if fwd[name][i] != bwd[name][i]:
+                ctx.violation(f'{name}: result depends on which key was looked up first (fresh interpreters disagree)',
+                              {'provider': name, 'key_index': i})
+    return ref
 
 
 def _hist_ops(printed):
@@ -96,7 +119,7 @@ def run(ctx):
     ctx.extra['tlc_call_configurations'] = len(ec.tagged('CFG'))
     ctx.extra['tlc_alias_prone_configurations'] = n_alias_cfgs
 
-    ref = _reference_snapshots()
+    ref = _reference_snapshots(ctx)
     providers = L.make_providers()
     for p_ in providers:  # compare observations in JSON-normalised form (the reference went through JSON)
         p_.observe = (lambda o, f=p_.observe: json.loads(json.dumps(f(o))))
